@@ -230,6 +230,7 @@ func (c *ctx) caseSkel(ts []tok, nilMapping bool) {
 	o2, root2, _ = runParser("legacy.raw", q, m)
 	o2 = treeOf(o2, root2)
 	c.chLg.Add(fmt.Sprintf("lgraw %s %s", mm, mt), o2.canon(), nt, "raw="+o2.kind)
+	endCase()
 }
 
 func enumToks(alpha []tok, n int, f func([]tok)) {
@@ -270,6 +271,34 @@ func (c *ctx) runSkel(r *vh.RNG) {
 	}
 	for n := 0; n <= c.o.Pick(2, 3); n++ {
 		enumToks(big, n, func(ts []tok) { c.caseSkel(ts, true) })
+	}
+	// around the nesting limit (maxQueryNesting, if the source has one): `not` chains, parentheses, mixed
+	for _, k := range []int{10, 498, 499, 500, 501, 998, 999, 1000, 1001, 1002, 1500} {
+		var a, b, m []tok
+		for i := 0; i < k; i++ {
+			a = append(a, tok{kind: "not"})
+			b = append(b, tok{kind: "("})
+			if i%2 == 0 {
+				m = append(m, tok{kind: "not"}, tok{kind: "("})
+			}
+		}
+		a = append(a, atom(0, 'p'))
+		b = append(b, atom(0, 'p'))
+		m = append(m, atom(0, 'p'), tok{kind: "and"}, atom(1, 'p'))
+		for i := 0; i < k; i++ {
+			b = append(b, tok{kind: ")"})
+			if i%2 == 0 {
+				m = append(m, tok{kind: ")"})
+			}
+		}
+		for _, ts := range [][]tok{a, b, m} {
+			for j := range ts {
+				if ts[j].kind == "atom" {
+					ts[j].n = j
+				}
+			}
+			c.caseSkel(ts, false)
+		}
 	}
 	// random longer lists: a rendered random tree with a few random token edits
 	for i := 0; i < c.o.Pick(3000, 40000); i++ {
@@ -501,6 +530,7 @@ func (e *E) render(st style, r *vh.RNG, lvl int) string {
 
 func (c *ctx) caseTruth(which string, k int, want string, q string, _ string, tag string) {
 	beginCase(which + " " + q)
+	defer endCase()
 	replay := fmt.Sprintf("truth %s %d %s %s -", which, k, want, hexs(q))
 	o, root, _ := runParser(which, q, fullMapping())
 	nt := strings.Count(q, ":") > 2
@@ -564,6 +594,7 @@ func (c *ctx) runTruth(r *vh.RNG) {
 func (c *ctx) caseTotal(which, mid, q, tag string) {
 	beginCase(which + " " + mid + " " + q)
 	o, _, _ := runParser(which, q, mappingByID(mid))
+	endCase()
 	c.orTotal.Case(which+" "+mid+" "+q, o.kind != "ok", "parser="+which, "mapping="+mid, "gen="+tag, "result="+o.kind)
 	if o.kind == "panic" {
 		class := "panic"
@@ -572,6 +603,18 @@ func (c *ctx) caseTotal(which, mid, q, tag string) {
 		}
 		c.violate(o.site, class, fmt.Sprintf("%s(%q) with mapping %q panicked: %s", which, q, mid, o.msg),
 			fmt.Sprintf("total %s %s %s", which, mid, hexs(q)))
+	}
+}
+
+// caseDeepIn parses a generated deep query in-process (depths that are safe for the stack).
+func (c *ctx) caseDeepIn(which, shape string, d int) {
+	key := fmt.Sprintf("deepin %s %s %d", which, shape, d)
+	beginCase(key)
+	o, _, _ := runParser(which, deepQuery(shape, d, which == "legacy"), nil)
+	endCase()
+	c.orTotal.Case(key, o.kind != "ok", "parser="+which, "gen=deepin-"+shape, "result="+o.kind)
+	if o.kind == "panic" {
+		c.violate(o.site, "panic", fmt.Sprintf("%s on %s x %d panicked: %s", which, shape, d, o.msg), key)
 	}
 }
 
@@ -622,6 +665,100 @@ func hostileString(r *vh.RNG) string {
 	return s
 }
 
+// goodString generates a mostly well-formed SeqQL query with rich atoms.
+func goodString(r *vh.RNG) string {
+	fields := []string{"fk", "ft", "fp", "fm", "fm.keyword", "_all_", "_exists_", "service", "message", "level", "request_uri", `"fk"`, "'ft'", "f*"}
+	words := []string{"a", "abc", "Error", "payment-api", "a_b.c", "x1", "Ünïcode", "日本語", "K", "İstanbul", "ǅ", "ß", "1e3", "-5", "a-b-c", "some*", "*end", "mi*dle", "*", "**",
+		`"two words"`, `'single q'`, "`raw \n str`", `"esc"aped"`, `"wild*card"`, `"lit\*star"`, `"tab	here"`, `"unié"`, `'a'b`, `a"b"c`, `"a""b"`, "`a``b`", `"A B  C"`, `"x:y/z"`, `" lead"`, `""`, `''`}
+	var atom func() string
+	atom = func() string {
+		f := fields[r.Intn(len(fields))]
+		switch r.Intn(8) {
+		case 0:
+			lo, hi := words[r.Intn(len(words))], words[r.Intn(len(words))]
+			return f + ":" + string("[("[r.Intn(2)]) + lo + []string{", ", ",", " to ", " TO "}[r.Intn(4)] + hi + string("])"[r.Intn(2)])
+		case 1:
+			n := 1 + r.Intn(4)
+			vs := make([]string, n)
+			for i := range vs {
+				vs[i] = words[r.Intn(len(words))]
+			}
+			return f + ":" + []string{"in", "IN", "In"}[r.Intn(3)] + "(" + strings.Join(vs, []string{", ", ",", " , "}[r.Intn(3)]) + ")"
+		case 2:
+			return f + ": " + words[r.Intn(len(words))]
+		}
+		return f + ":" + words[r.Intn(len(words))]
+	}
+	var expr func(d int) string
+	expr = func(d int) string {
+		if d <= 0 || r.Chance(2, 5) {
+			return atom()
+		}
+		switch r.Intn(5) {
+		case 0:
+			return []string{"not ", "NOT ", "Not "}[r.Intn(3)] + expr(d-1)
+		case 1:
+			return "(" + expr(d-1) + ")"
+		case 2:
+			return expr(d-1) + []string{" or ", " OR "}[r.Intn(2)] + expr(d-1)
+		}
+		return expr(d-1) + []string{" and ", " AND ", "  and\n"}[r.Intn(3)] + expr(d-1)
+	}
+	s := expr(1 + r.Intn(4))
+	if r.Chance(1, 10) {
+		s = "* and " + s
+	}
+	if r.Chance(1, 5) {
+		s += []string{" | fields a", " | fields a, b.c", " | fields except a,b", " | fields 'q f', *x", "|fields a b"}[r.Intn(5)]
+	}
+	if r.Chance(1, 10) {
+		s = "# comment\n" + s
+	}
+	return s
+}
+
+func (c *ctx) runLex(r *vh.RNG) {
+	mids := []string{"full", "test", "safe", "nil"}
+	// directed: every field x value shapes
+	for _, f := range hostileFields {
+		for _, v := range hostileValues {
+			c.caseLex("full", false, f+":"+v, "directed")
+		}
+	}
+	for _, v := range hostileValues {
+		for _, mid := range mids {
+			c.caseLex(mid, true, "ft:"+v, "directed")
+			c.caseLex(mid, false, "fk:"+v+" and ft:"+v, "directed")
+			c.caseLex(mid, false, "fp:["+v+", "+v+"]", "directed")
+			c.caseLex(mid, false, "fk:in("+v+", "+v+")", "directed")
+			c.caseLex(mid, false, "fk:a | fields "+v, "directed")
+		}
+	}
+	for i := 0; i < c.o.Pick(15000, 250000); i++ {
+		c.caseLex(mids[r.Intn(4)], r.Bool(), goodString(r), "good")
+	}
+	for i := 0; i < c.o.Pick(15000, 250000); i++ {
+		c.caseLex(mids[r.Intn(4)], r.Bool(), hostileString(r), "hostile")
+	}
+	// mutated good strings
+	alphabet := "()[]{}:\"'`\\*|,#-_.$ \n\t\xff\xc3aA0"
+	for i := 0; i < c.o.Pick(10000, 150000); i++ {
+		s := goodString(r)
+		for m := 1 + r.Intn(2); m > 0 && len(s) > 0; m-- {
+			j := r.Intn(len(s))
+			switch r.Intn(3) {
+			case 0:
+				s = s[:j] + s[j+1:]
+			case 1:
+				s = s[:j] + string(alphabet[r.Intn(len(alphabet))]) + s[j:]
+			case 2:
+				s = s[:j] + string(alphabet[r.Intn(len(alphabet))]) + s[j+1:]
+			}
+		}
+		c.caseLex(mids[r.Intn(4)], r.Bool(), s, "mutated")
+	}
+}
+
 func (c *ctx) runTotal(r *vh.RNG) {
 	// directed: every field x a few value shapes x every mapping x every parser (the smallest witnesses come first)
 	for _, f := range hostileFields {
@@ -658,12 +795,12 @@ func (c *ctx) runTotal(r *vh.RNG) {
 	for i := 0; i < c.o.Pick(30000, 600000); i++ {
 		c.caseTotal(whichs[r.Intn(len(whichs))], mids[r.Intn(len(mids))], hostileString(r), "random")
 	}
-	// deep nesting (recursion depth)
-	for _, d := range []int{100, 10000, c.o.Pick(50000, 200000)} {
+	// moderately deep nesting in-process (the really deep ones run in a child process, see deep.go)
+	for _, d := range []int{100, 1000, 10000, c.o.Pick(50000, 200000)} {
 		for _, which := range []string{"seqql", "legacy"} {
-			c.caseTotal(which, "nil", strings.Repeat("(", d)+"fk:a"+strings.Repeat(")", d), "deep")
-			c.caseTotal(which, "nil", strings.Repeat("not ", d)+"fk:a", "deep")
-			c.caseTotal(which, "nil", strings.Repeat("(", d), "deep")
+			for _, shape := range []string{"paren", "not", "open", "notparen", "orchain", "andnotchain"} {
+				c.caseDeepIn(which, shape, d)
+			}
 		}
 	}
 }
